@@ -66,11 +66,13 @@ func (r *rwRT) ruleOracles() {
 		}{{"Yield", yieldObj, true}, {"YieldFrom", fromObj, true}, {"another function", Sym{Name: "obj:other", NN: true, Uniq: true}, false}, {"an unresolved callee", Nil{}, false}} {
 			callee = tc.obj
 			for _, o := range d.step(d.base, d.pre, r.node("CallExpr", "n")) {
-				found := o.Panicked // the search aborts by panicking with its private token once it found a yield
+				// "found" is signalled either by aborting the traversal (panic with a private token) or by
+				// setting a boolean captured by the callback (and pruning the rest of the traversal)
+				found := o.Panicked || flippedToTrue(d.base, o.St, d.pre)
 				if found != tc.hit {
 					err = fmt.Errorf("a call of %s: found=%v, expected %v", tc.name, found, tc.hit)
 				}
-				if !o.Panicked && len(o.Ret) == 1 {
+				if !found && !o.Panicked && len(o.Ret) == 1 {
 					if b, ok := asBool(o.Ret[0]); !ok || !b {
 						err = fmt.Errorf("the search does not descend into the arguments of a call of %s", tc.name)
 					}
@@ -297,3 +299,35 @@ func (r *rwRT) ruleOracles() {
 }
 
 var _ = strings.Contains
+
+
+// flippedToTrue: some boolean variable captured by the closure is false before and true after.
+func flippedToTrue(before, after *State, clo AV) bool {
+	c, ok := clo.(Closure)
+	if !ok {
+		return false
+	}
+	for _, b := range c.Bind {
+		r, isRef := b.(Ref)
+		if !isRef {
+			continue
+		}
+		ob, oa := before.heap[r.ID], after.heap[r.ID]
+		if ob == nil || oa == nil || ob.Kind != 'c' {
+			continue
+		}
+		vb, kb := asBool(ob.Val)
+		if ob.Val == nil {
+			vb, kb = false, true
+		}
+		if z, isZ := ob.Val.(Zero); isZ {
+			_ = z
+			vb, kb = false, true
+		}
+		va, ka := asBool(oa.Val)
+		if kb && ka && !vb && va {
+			return true
+		}
+	}
+	return false
+}
